@@ -98,19 +98,19 @@ def body_compare(E, cfg):
     return [res.overlapping, res.nonOverlapping, res.firstOnly, res.secondOnly]
 
 
-def mk_pairs(E, tag, n, lo=1, hi=3):
+def mk_pairs(E, tag, n, lo=1, hi=3, qhi=None):
     out = []
     for i in range(n):
         r = small_int(E, f"{tag}_ref{i}", lo, hi)
-        q = small_int(E, f"{tag}_qry{i}", lo, hi)
+        q = small_int(E, f"{tag}_qry{i}", lo, qhi or hi)
         out.append(BenchmarkAlignedPair(BenchmarkAlignmentPosition(r, 0), BenchmarkAlignmentPosition(q, 0)))
     return out
 
 
 def body_row(E, cfg):
     combine = cfg["combine"]
-    p1 = mk_pairs(E, "x", cfg["n1"])
-    p2 = mk_pairs(E, "y", cfg["n2"])
+    p1 = mk_pairs(E, "x", cfg["n1"], qhi=cfg.get("qhi"))
+    p2 = mk_pairs(E, "y", cfg["n2"], qhi=cfg.get("qhi"))
     a1 = BionanoAlignment(1, 1, 1, 0, 0, 0, 0, False, 1., "", 10, 10, p1)
     a2 = BionanoAlignment(2, 1, 1, 0, 0, 0, 0, False, 1., "", 10, 10, p2)
     try:
@@ -187,9 +187,12 @@ def units(prop):
              assumptions=["ids are enumerated by realisation forks, not abstracted"], outside=["more than 3 alignments per set, ids outside {1,2}"],
              shard_depth=lambda cfg, tier: 6),
         Unit(name="AlignmentRowComparer.compare", body=body_row,
-             configs=lambda tier: [dict(n1=a, n2=b, combine=c) for a in range(0, 3) for b in range(0, 3) for c in (False, True)],
+             configs=lambda tier: [dict(n1=a, n2=b, combine=c) for a in range(0, 3) for b in range(0, 3) for c in (False, True)] +
+                                  [dict(n1=3, n2=2, combine=True, qhi=2), dict(n1=2, n2=3, combine=True, qhi=2)] +
+                                  ([dict(n1=3, n2=3, combine=c, qhi=2) for c in (False, True)] if tier != "quick" else []),
              functions=["src.diagnostic.alignment_comparer:AlignmentRowComparer"],
-             bounds="two pair lists of 0..2 pairs with reference and query label numbers in 1..3 (duplicates allowed), with and without combining",
+             bounds="two pair lists of 0..2 pairs with reference and query label numbers in 1..3 (duplicates allowed), with and without combining; "
+                    "lists of 3 + 2 and 2 + 3 pairs (thorough 3 + 3) with reference labels 1..3 and query labels 1..2, combining on",
              nontrivial_rule="both lists non-empty", witness=False,
              assumptions=["label numbers are enumerated by realisation forks (hashing in set / SequenceMatcher)"],
              outside=["longer pair lists"], shard_depth=lambda cfg, tier: 6),
